@@ -209,11 +209,11 @@ def cbool(b):
     return "true" if b else "false"
 
 
-def coq_eval_mismatches(pid, imports, checker, cases, shard=400, timeout=900, ztype=True):
+def coq_eval_mismatches(pid, imports, checker, cases, ctype, shard=400, timeout=900, ztype=True):
     """cases: list of Coq terms (strings), each of the input type of `checker`
     (a Gallina function `case -> bool`).  Returns the indices i with checker(case_i) = false,
     or raises RuntimeError when coqc itself fails."""
-    d = os.path.join(SCRATCH, "cases_" + pid)
+    d = os.path.join(SCRATCH, "cases_%s_%d" % (pid, os.getpid()))
     shutil.rmtree(d, ignore_errors=True)
     os.makedirs(d)
     files = []
@@ -222,7 +222,7 @@ def coq_eval_mismatches(pid, imports, checker, cases, shard=400, timeout=900, zt
         with open(fn, "w") as f:
             f.write("From PydapV Require Import %s.\n" % imports)
             f.write("Local Open Scope Z_scope.\n" if ztype else "")
-            f.write("Definition cases := [\n")
+            f.write("Definition cases : list (N * (%s)) := [\n" % ctype)
             f.write(";\n".join("(%d%%N, %s)" % (k + j, c) for j, c in enumerate(cases[k:k + shard])))
             f.write("\n].\n")
             f.write("Eval vm_compute in (map fst (filter (fun p => negb (%s (snd p))) cases)).\n" % checker)
@@ -350,13 +350,14 @@ class Report:
             "violations": len(self.violations), "known_findings": self.known,
             "repo": REPO,
         }
-        os.makedirs(os.path.join(VERIF, "evidence"), exist_ok=True)
-        with open(os.path.join(VERIF, "evidence", self.pid + ".json"), "w") as f:
+        evdir = os.environ.get("VERIF_EVIDENCE_DIR") or os.path.join(VERIF, "evidence")
+        os.makedirs(evdir, exist_ok=True)
+        with open(os.path.join(evdir, self.pid + ".json"), "w") as f:
             json.dump(ev, f, indent=1, default=repr)
             f.write("\n")
         for k in self.known:
             print("KNOWN-FINDING: property=%s %s" % (self.pid, k))
-        for path, found in self.violations[:20]:
+        for path, found in self.violations[:5]:
             print("VIOLATION property=%s replay=%s%s" % (self.pid, path, "" if found else " no-failing-input-found"))
         sys.stdout.flush()
         if self.violations:
